@@ -265,6 +265,23 @@ def handle (j : Json) : Except String Json := do
     | .ok (docs, outs) => pure (Json.mkObj [("ok", Json.mkObj [
         ("merged", Json.arr (docs.map valToJson).toArray), ("docs", Json.arr (outs.map valToJson).toArray)])])
     | .error e => pure (errJson e)
+  | "toolcli" =>
+    -- the three tool mains around diffDoc / intersect / required
+    let fs ← fsOfJson j
+    let cwd := splitPath (← j.getObjValAs? String "cwd")
+    let env := envOfJson (j.getObjValD "env")
+    let o := j.getObjValD "opts"
+    let opts : ToolOpts := { format := optStr o "format", outPath := optStr o "out", inputs := strList (o.getObjValD "inputs") }
+    let tool ← j.getObjValAs? String "tool"
+    let r := match tool with
+      | "bkld" => bkldRun fs cwd env opts
+      | "bkli" => bkliRun fs cwd opts
+      | _ => bklrRun fs cwd opts
+    match r with
+    | .ok t => pure (Json.mkObj [("ok", Json.mkObj [("format", Json.str t.format),
+        ("doc", match t.doc with | some d => valToJson d | none => Json.null),
+        ("nil", Json.bool t.doc.isNone)])])
+    | .error e => pure (errJson e)
   | "wrap" =>
     let fs ← fsOfJson j
     let cwd := splitPath (← j.getObjValAs? String "cwd")
